@@ -53,7 +53,10 @@ RULE = ("Case = one ray-transfer object (box: nx,ny,nz in 1..6, cells 0.05..2 m;
         "the oracle after each, then the first configuration restored through the setters and the first ray traced again "
         "(row must be bit-identical; every spectrum returned earlier still intact; getters read twice); caller-owned data: "
         "the array passed in is bit-identical afterwards, and overwriting it afterwards changes neither voxel_map / bins nor "
-        "the traced row. While C10-fortran-voxel-map is open, voxel maps (not masks) are kept out of the Fortran layout. "
+        "the traced row; setter history with equal active sets (half of the cases): a permuting / merging voxel_map followed by "
+        "obj.mask = obj.mask, a fresh equal boolean mask and (full coverage) an all-True mask, and the mirror mask -> equal / "
+        "same-active-set voxel_map; each must leave bins / voxel_map / rows as a fresh object built with the last assignment. "
+        "While C10-fortran-voxel-map is open, voxel maps (not masks) are kept out of the Fortran layout. "
         "Sub-check pipelines: the same object generators + a pool of 6 generated rays; a RayTransferPipeline0D / 1D / 2D (kind "
         "power / radiance, sensitivity 1, 0.5, 2.5, pixel_samples 1..3, 0-D samples_per_task 1 or 250) on a SightLine / a minimal "
         "fixed-ray Observer1D (1..4 pixels) / a VectorCamera of shape (<=3, <=2) or (<=2, <=3); the SAME pipeline object is "
@@ -122,6 +125,7 @@ for _k in ("box", "cyl"):
         "scalars:float", "scalars:int", "scalars:numpy", "reuse:mask", "reuse:voxel_map", "reuse:step", "reuse:min_samples", "repeat",
         "caller:poke", "via:ctor", "via:setter", "step:default", "map:none", "map:mask", "map:merge", "map:identity", "ray:z-parallel")]
 REQUIRED_LABELS += ["box:shape:nx!=ny!=nz"]
+REQUIRED_LABELS += [k + ":history:" + h for k in ("box", "cyl") for h in ("map-then-mask", "mask-then-map", "all-true-mask", "permuted", "merged-full")]
 
 FORTRAN = "C10-fortran-voxel-map"        # open: a Fortran-ordered / transposed voxel_map is rejected and corrupts the object
 AXIS_HOLE = "C10-axis-hole-zero-row"     # open: radius_inner = 0 still gets an inner bounding cylinder of radius 1e-5 dr
@@ -242,7 +246,8 @@ def _options(draw, ncell):
             "integ": draw(st.sampled_from(["plain", "plain", "rt.step", "integrator.step", "new"])),
             "ms": draw(st.sampled_from(MIN_SAMPLES)), "numerical": draw(st.integers(0, 7)) == 0,
             "form": form, "scalars": draw(st.sampled_from(["float", "float", "int", "numpy"])),
-            "reuse": reuse, "poke": draw(st.booleans())}
+            "reuse": reuse, "poke": draw(st.booleans()),
+            "equiv": draw(st.sampled_from([None, None, "map-then-mask", "mask-then-map"])), "equiv_var": draw(st.integers(0, 2))}
 
 
 @st.composite
@@ -403,7 +408,7 @@ def _build(cls, args, step_given, step, mask, vmap, via, place):
     return world, obj
 
 
-_DEFAULT_OPT = {"build": "object", "integ": "plain", "ms": 2, "numerical": False, "form": "c64", "scalars": "float", "reuse": [], "poke": False}
+_DEFAULT_OPT = {"equiv": None, "equiv_var": 0, "build": "object", "integ": "plain", "ms": 2, "numerical": False, "form": "c64", "scalars": "float", "reuse": [], "poke": False}
 
 
 def _form(arr, form):
@@ -747,9 +752,56 @@ def run(case, ctx):
         for (o, u, ch, _, _) in done[:2]:
             e = _trace(ctx, world, nb2, M, o, u, case["wl"])
             _check_bounds(ctx, e, CH.bounds(ch, vm2, nb2, step2, min_samples=ms2, scheme=scheme), "reuse-", None, scheme)
+    # ---- setter history with equal active sets: a mask assigned after a merging / permuting voxel_map (and the mirror case)
+    # must install exactly what a fresh object built with that last assignment has
+    if opt["equiv"]:
+        ncell = int(np.prod(shape))
+        idx = np.arange(ncell).reshape(shape)
+        var = opt["equiv_var"]
+        merged = [idx[::-1, ::-1, ::-1].copy(), idx // 2, np.where(idx % 3 == 0, -1, idx // 2)][var]    # permuted / merged / merged + holes
+        if merged.max() < 0:
+            merged = np.zeros(shape, dtype=np.int64)
+
+        def expect(vm_want, what):
+            with ctx.cut("reconfigure"):
+                b, mp = rt.bins, np.array(rt.voxel_map)
+            nb = int(vm_want.max()) + 1
+            ctx.check(b == nb and np.array_equal(mp, vm_want), "setter-history", lambda: "%s: bins %r (a fresh object has %d), voxel_map %s"
+                      % (what, b, nb, "equal" if np.array_equal(mp, vm_want) else "differs from the fresh object's"))
+            e = _trace(ctx, world, nb, M, done[0][0], done[0][1], case["wl"])
+            _check_bounds(ctx, e, CH.bounds(done[0][2], vm_want, nb, step2, min_samples=ms2, scheme=scheme), "setter-history-", None, scheme)
+
+        act = merged >= 0
+        ident = -np.ones(shape, dtype=np.int64)
+        ident[act] = np.arange(int(act.sum()))
+        if opt["equiv"] == "map-then-mask":
+            masks = [("obj.mask = obj.mask", None), ("fresh equal boolean mask", act.copy())]
+            if act.all():
+                masks.append(("all-True mask", np.ones(shape, dtype=bool)))
+            for what, m in masks:
+                with ctx.cut("reconfigure"):
+                    rt.voxel_map = merged.copy()
+                expect(merged, "voxel_map assigned")
+                with ctx.cut("reconfigure"):
+                    rt.mask = rt.mask if m is None else m
+                expect(ident, "after a %s voxel_map, %s" % (["permuting", "merging", "merging"][var], what))
+            ctx.label("history:map-then-mask", "history:" + ["permuted", "merged-full", "merged-holes"][var if not act.all() or var < 2 else 1])
+            if act.all():
+                ctx.label("history:all-true-mask")
+        else:
+            with ctx.cut("reconfigure"):
+                rt.mask = act.copy()
+            expect(ident, "mask assigned")
+            with ctx.cut("reconfigure"):
+                rt.voxel_map = ident.copy()
+            expect(ident, "after a mask, the equal one-source-per-cell voxel_map")
+            with ctx.cut("reconfigure"):
+                rt.voxel_map = merged.copy()
+            expect(merged, "after a mask, a voxel_map with the same active cells")
+            ctx.label("history:mask-then-map")
     # ---- back to the first configuration: the first row must come back bit for bit; rows handed out earlier are intact
     o, u, ch, e0, raw0 = done[0]
-    if opt["reuse"]:
+    if opt["reuse"] or opt["equiv"]:
         with ctx.cut("reconfigure"):
             _apply_vox(rt, mask_f, vmap_f)
             rt.step = step
